@@ -359,7 +359,10 @@ pub fn write_replay(
     doc: &serde_json::Value,
     pretty: &str,
 ) -> PathBuf {
-    let dir = PathBuf::from("/verif/replays");
+    // VERIF_REPLAY_DIR: used when a check is run against a deliberately broken
+    // copy of the repository (sensitivity runs), to keep /verif/replays clean
+    let dir = std::env::var_os("VERIF_REPLAY_DIR")
+        .map_or_else(|| PathBuf::from("/verif/replays"), PathBuf::from);
     let _ = std::fs::create_dir_all(&dir);
     let txt = serde_json::to_string(doc).unwrap();
     let h = hash_bytes(txt.as_bytes());
